@@ -121,6 +121,18 @@ class ProtocolCodeGenerator:
 
             generated_init.add_import("*", absolute_package_path)
 
+        exported_names = [
+            *(get_required_string_attribute(e, "name") for e in protocol.findall("enum")),
+            *(get_required_string_attribute(s, "name") for s in protocol.findall("struct")),
+            *(
+                get_required_string_attribute(p, "family")
+                + get_required_string_attribute(p, "action")
+                + self._make_packet_suffix(self._packet_paths.get(p))
+                for p in protocol.findall("packet")
+            ),
+        ]
+        generated_init.add_line(f"__all__ = {exported_names!r}")
+
         relative_path = Path(os.path.relpath(protocol_file.path, self._input_root)).as_posix()
         path = os.path.join(os.path.dirname(relative_path), "__init__.py")
         path = Path(path).as_posix()
